@@ -13,6 +13,9 @@ def main():
     if a.pid in CORE:
         import core
         mod = core
+    elif a.pid == "C08":
+        import c08
+        mod = c08
     elif a.pid in ("C09", "C20"):
         import c09
         mod = c09
